@@ -491,7 +491,9 @@ def get_async(
                 nready = len(state["ready"])
                 if chunksize == -1:
                     ntasks = nready
-                    chunksize = -(ntasks // -num_workers)
+                    # nothing ready (a batch finished without unblocking any task):
+                    # keep the batch size positive, the submit loop below is then a no-op
+                    chunksize = max(-(ntasks // -num_workers), 1)
                 else:
                     used_workers = -(len(state["running"]) // -chunksize)
                     avail_workers = max(num_workers - used_workers, 0)
